@@ -792,16 +792,23 @@ def _site_impl(c: dict, game, lookup) -> str:
 
 
 # ------------------------------------------------------------------------------------------------ probes of single sites across processes
+def _port_lookup() -> Dict[str, int]:
+    from primaite.utils.validation.port import PORT_LOOKUP
+    return dict(PORT_LOOKUP)
+
+
 def probe_rig(ctx: Ctx):
     """Inventory sites evaluated stand-alone in fresh interpreters with different hash seeds (int-hashed port sets, nmap target
     expansion, open ports of a running game, topological_sort/graph_has_cycle on graphs whose neighbour sets are sets of strings)."""
     rng = ctx.rng.fork("probe")
     ports = [80, 21, 53, 443, 5432, 8080, 22, 123, 3389, 445, 631, 20, 25, 110, 143, 161, 162, 219, 389, 1433, 3306, 5004, 5005, 5353, 8443, 9, 115]
+    lrng = ctx.rng.fork("probe-listen")
     probe = {
         "int_sets": [[rng.choice(ports) for _ in range(rng.range(1, 12))] for _ in range(ctx.scale(30, 300))],
         "explode": [sites.gen_targets(rng) for _ in range(ctx.scale(20, 200))],
         "open_ports": True,
         "str_graphs": [],
+        "listen_lists": [sites.gen_listen_probe(lrng, _port_lookup()) for _ in range(ctx.scale(10, 60))],
     }
     names = ["defender", "attacker", "green_a", "green_b", "client_1_green_user", "data_manipulation_attacker", "x", "yy", "zzz"]
     for _ in range(ctx.scale(30, 300)):
@@ -844,6 +851,8 @@ def probe_rig(ctx: Ctx):
             ctx.violation({"kind": "topological-sort-not-dependencies-first"}, f"topological_sort on a set-valued graph: {bad_graphs[:2]}", {"probe": probe})
         ctx.count("probe:int-sets", len(pr["int_sets"]))
         ctx.count("probe:explode", len(pr["explode"]))
+        ctx.count("probe:listen-lists", len(pr.get("listen_lists", [])))
+        ctx.count("probe:listen-lists-raised", sum(1 for x in pr.get("listen_lists", []) if "raised" in x))
         ctx.count("probe:str-graphs", len(pr["str_graphs"]))
         ctx.count("probe:str-graphs-cyclic", sum(1 for g in pr["str_graphs"] if g["cycle"]))
     ctx.oblige("rig:stand-alone site probes agree across processes", "correspondence", ok, "" if ok else "see violations / worker output")
